@@ -96,8 +96,10 @@ def model_check(ctx):
         runs = [("legal", ("Jt", "Lt", "Xt", "N", "Jf"), (1, 2, 3), ("none", "jump"), (2, 3), False, A),
                 ("legal", ("Jt", "Xt", "N", "Jf"), (2, 3), ("none", "nop"), (1, 4), False, ("append", "inplace")),
                 ("legal", ("Jt", "Xt", "N"), (2,), ("none",), (2, 3), True, A),
-                ("fixed", ("Jt", "Lt", "Xt", "N", "Jf", "Bt", "W"), (2, 3), ("none", "jump"), (1, 2, 3, 4), False, A),
-                ("ppci", ("Jt", "Lt", "Xt", "N", "Jf", "Bt"), (1, 2, 3), ("none", "jump"), (1, 2, 3, 4), False, A)]
+                ("fixed", ("Jt", "Lt", "Xt", "N", "Jf", "Bt", "W"), (1, 2), ("none", "nop", "jump"), (1, 2, 3, 4), False, A),
+                ("fixed", ("Jt", "Xt", "N", "Jf"), (3,), ("none", "jump"), (1, 2, 3, 4), False, A),
+                ("ppci", ("Jt", "Lt", "Xt", "N", "Jf", "Bt"), (1, 2), ("none", "jump"), (1, 2, 3, 4), False, A),
+                ("ppci", ("Jt", "Xt", "N", "Jf"), (3,), ("none", "jump"), (1, 2, 3, 4), False, A)]
     else:
         runs = [("legal", ("Jt", "Lt", "Xt", "N", "Jf"), (1, 2), ("none", "jump"), (1, 2, 3), False, ("append", "inplace")),
                 ("ppci", ("Jt", "Xt", "N", "Jf"), (1, 2), ("none",), (2, 3), False, A)]
@@ -123,7 +125,7 @@ def model_check(ctx):
                         c = cex.setdefault(x, {"jobs": 0, "first_job": int(m.group(1))})
                         c["jobs"] += 1
                         c["first_job"] = min(c["first_job"], int(m.group(1)))
-            ctx.cov["m_ppci_jobs"] = njobs
+            ctx.cov["m_ppci_jobs"] = ctx.cov.get("m_ppci_jobs", 0) + njobs
     ctx.cov["m_situations_covered"] = {k: covered.get(k, 0) for k in SITUATIONS}
     missing = [k for k in SITUATIONS if not covered.get(k)]
     if missing:
